@@ -135,18 +135,18 @@ def convertOp (isUser : Bool) (order : List Nat) (files : List (Str × Str)) : S
     | .error _ => .error "loaderr Unit"
     | .ok u => if supportedExt (Cv.extension (Cv.fileName p)) then .ok { path := p, unit := u } else .error "loaderr UnsupportedQuadletType"
   let qs := loaded.filterMap fun r => match r with | .ok q => some q | .error _ => none
-  let t0 : Cv.Tbl := { infos := qs.map fun q => (q.name, Cv.prefill q), toStart := [] }
-  let (_, outs, oom) := order.foldl (fun (acc : Cv.Tbl × List String × Bool) idx =>
+  let S := Cv.sys isUser
+  let (_, outs, oom) := order.foldl (fun (acc : Refine.St Cv.Str Cv.Info Cv.Str × List String × Bool) idx =>
     let (t, outs, oom) := acc
     match (loaded[idx]? : Option (Except String Cv.QUnit)) with
     | none => (t, outs ++ ["bad-index"], oom)
     | some (Except.error e) => (t, outs ++ [e], oom)
     | some (Except.ok q) =>
-      let (t', o) := Cv.convertStepU isUser t q
+      let (t', o) := Refine.step S t q
       match o with
-      | .ok svc => (t', outs ++ ["svc " ++ hexe (Cv.serviceFileName ((t.get q.name).getD (Cv.prefill q))) ++ " " ++ dumpUnit svc], oom)
+      | .ok svc => (t', outs ++ ["svc " ++ hexe (Cv.serviceFileName ((t.tbl q.name).getD (Cv.prefill q))) ++ " " ++ dumpUnit svc], oom)
       | .err e => (t', outs ++ ["err " ++ errVariant e], oom)
-      | .outOfModel => (t', outs, true)) (t0, [], false)
+      | .outOfModel => (t', outs, true)) (Refine.init S qs, [], false)
   if oom then "out-of-model" else "ok " ++ " | ".intercalate outs
 
 def pairsOf : List String → List (Str × Str)
